@@ -21,7 +21,7 @@ claim('C05', "Dominance/provenance: every path that deletes an entity, changes i
       "Counter wrap-around at 2^32 is not decided.", "DESIGN.md §4 C05")
 claim('C06', "Every path of the leave function: modules told, subscriptions dropped, own entity ids walked, removal exactly for existing non-persistent entities with component cascade and relay, frame callback unregistered before removal, leaver removed, emptiness test after removal, both connection fields cleared (E1, E4, E6, E9); who may call it and that disconnect reaches it (E2); sibling agreement of vikja/odal cleanup on the persist predicate (E3); decorators forward HandleDisconnect (A2); relays of both classes (C1); survivors are serialised to later joiners (C7).",
       "That every way a connection ends reaches HandleDisconnect exactly once is covered by the C08 check (E5).", "DESIGN.md §4 C06")
-claim('C07', "Structural part: the session is removed from the registry exactly on the empty outcome of the test that follows the leaver's removal; leave is called only from disconnect and join behind a participant test (E1, E2, E6).",
+claim('C07', "Structural part (registry, worker, leave): the session is removed from the registry exactly on the empty outcome of the test that follows the leaver's removal; leave is called only from disconnect and join behind a participant test (E1, E2, E6).",
       "Atomicity of lookup/add and remove/count/unregister across critical sections, the gauge value and goroutine termination are handled by the SSA-based rules when claimed; histories are not enumerated.", "DESIGN.md §4 C07")
 claim('C08', "No client message may panic a handler through an absent sub-message: every dereference of a pointer-to-message field, repo-wide and through helper functions, is dominated by a nil test or goes through a generated getter (G1); decorators forward receive/send/disconnect exactly once (A2).",
       "Arithmetic panics in modules/dagaz (float to index), timing of the idle timeout are not decided (DESIGN §6).", "DESIGN.md §4 C08")
@@ -43,6 +43,12 @@ claim('C18', "Preconditions and bindings of a measurement: Start is reached only
       "Numeric relations between min/mean/max/p95/last, ping-id uniqueness and ECDSA are not decided (DESIGN §6).", "DESIGN.md §4 C18")
 claim('C20', "One clause only: samples are shared per session and kept for as long as the session lives - every module's Init fetches its state from the given session under its own distinct name, creates it only when missing and never writes into an existing state on later joins (J3, J4).",
       "Index completeness, bounds, plane count and all geometric primitives are floating-point statements this family cannot decide (DESIGN §6).", "DESIGN.md §4 C20")
+claim('C09', "Lockset analysis on every control-flow path of every repository function (locks held by callers propagated through the VTA call graph): each mutable field of a shared struct is written only under one consistent exclusive lock and read only under that lock (F1, with aliases of guarded containers followed); owner-confined state is reached only through the connection's own participant (F2); no guarded container is returned (F5); the acquire-while-held graph over lock identities, through calls and callbacks, is acyclic and free of re-entrance (F3); every lock is released on every path with the matching unlock (F6) and by defer wherever a recovered panic could otherwise leave it held (F6b); no read-then-write of one field is split across two critical sections (E8a); wait-for cycles between locks and bounded channels and self-waits on a channel are reported (F4); frame callbacks run under the registration lock (E6).",
+      "Lock identity is (struct type, field): sound for cycles, may conflate instances. Progress beyond wait-for acyclicity and races inside dependencies are not decided. One known finding (frame worker vs leave: lock -> bounded queue -> lock).", "DESIGN.md §4 C09", technique="path-sensitive lockset + lock-order + wait-for analysis over go/cfg paths, callees resolved by go/ssa VTA call graph")
+claim('C15', "Who-may-mount and gate-shape rules: every x/net websocket.Server literal whose handler reaches the relay has Handshake = VerifyAuthToken(...) and the relay is entered from nowhere else; the smoke-test handler is only ever handed directly to VerifyAuthTokenHandler; in both gates every admitting path (return nil / next.ServeHTTP) passes VerifyUserAuth == nil on the token taken from that very request, every other path rejects (401 for the smoke test); both gates use the discovery-service client the server pairs with (I6).",
+      "JWT validation itself (signature, algorithm, expiry: golang-jwt and hagall-common) and secret rotation are behaviour of dependencies and are not decided; x/net calls Handshake before Handler (trusted).", "DESIGN.md §4 C15")
+claim('C19', "Receipt flow on every path: the only send into the receipt channel is a select with default (never blocks) carrying the request's three fields unchanged; 'accepted' is answered iff the receipt was queued, one answer per path returning nil (B1/B2/B4 on HandleReceipt); the worker verifies and forwards exactly the dequeued payload without rewriting it, forwards once iff verification returned nil; VerifyPayload accepts only behind Keccak256(receipt) == hash and a successful Ecrecover(hash, signature); ForwardToNCS posts once without loop; handler and worker share one buffered channel (I5).",
+      "Behaviour of the credit service and of Keccak256/Ecrecover is external and trusted.", "DESIGN.md §4 C19")
 NA = {}
 
 checks = []
